@@ -29,8 +29,8 @@ def world_csum():
     """the same game on a checksummed target with a dependent: the user's version of `c` is what `top` gets built from,
     and when the user removes it again the rebuilt `c` must reach `top` (even if it equals the output before the edit)"""
     return World(
-        "owner-csum", {"src": ["0", "2"]},
-        {"top.do": [S(deps=["c"])], "c.do": [S(kind="csum", deps=["src"], out="file")]},
+        "owner-csum", {"src": ["0", "2"], "flag": ["0", "1"]},
+        {"top.do": [S(deps=["c"])], "c.do": [S(kind="csum", deps=["src"], fail="flag", out="file")]},
         ["top", "c"], ["top", "c"],
         prefixes=[[["ifchange", ["top"]], ["uwrite", "c", "U1\n"], ["ifchange", ["top"]]],
                   [["ifchange", ["top"]], ["ureplace", "c", "R\n"], ["ifchange", ["top"]], ["rm", "c"]],
@@ -38,7 +38,11 @@ def world_csum():
                   [["ifchange", ["top"]], ["edit", "src", "2"], ["kbuild", ["top"], "c", "e"]],
                   # the very first build of c killed after its redo-stamp had run: there is no c yet; what the user puts
                   # there afterwards is the user's
-                  [["kbuild", ["top"], "c", "e"]]])
+                  [["kbuild", ["top"], "c", "e"]],
+                  # c was removed and its rebuild FAILED (so redo forgot that it was a target); the user then put a file of
+                  # their own there, top was built from it, and the user has removed it again
+                  [["ifchange", ["top"]], ["rm", "c"], ["edit", "flag", "1"], ["ifchange", ["top"]], ["uwrite", "c", "U1\n"],
+                   ["ifchange", ["top"]], ["rm", "c"]]])
 
 
 def world_dir():
@@ -85,6 +89,7 @@ def alphabet_csum(w, h):
     ops = [["ifchange", ["top"]], ["ifchange", ["c"]], ["redo", ["c"]]]
     cur = e1prop.cur_values(w, h)
     ops.append(["edit", "src", "2" if cur["src"] == "0" else "0"])
+    ops.append(["edit", "flag", "1" if cur["flag"] == "0" else "0"])
     for n in ("c", "top"):
         ops += [["uwrite", n, "U1\n"], ["ureplace", n, "R\n"], ["rm", n]]
     return ops
